@@ -107,4 +107,10 @@ theorem belief_stays_in_sync (s : St) (hf : s.fx.f8a = true) (hU : s.failU = [])
 theorem empty_set_always_releases (s : St) (h : s.cfg.paths = []) : (iteration s).watcher = none ∧ (iteration s).localSet = [] :=
   empty_set_releases s h
 
+/-- **a failed unregistration is remembered, hence attempted again** at the next wake-up: the path stays in the worker's own set
+    and in the watcher's registrations, and exactly its runtime error(s) are reported -/
+theorem failed_unregistration_is_remembered (s : St) (p : WP) (h : s.failU.contains p.name = true) :
+    (doUnwatch s p).localSet = s.localSet ∧ (doUnwatch s p).watcher = s.watcher ∧
+    (s.watcher ≠ none → (doUnwatch s p).errs = s.errs + errNOf s.named p.name) := failed_unwatch_is_remembered s p h
+
 end Props.C13
